@@ -99,6 +99,12 @@ add("C12", "model_checking",
     "Trusted: REF-RUN (the statement's loop); parse/compile are shared with the subject (C02/C03); CLI argument errors only need to exit non-zero without running.",
     "DESIGN.md 3/C12")
 
+add("C17", "model_checking",
+    "explicit-state BFS by replay over key sequences (22-key alphabet, depth 4/5) on the real Tui event dispatch with state deduplication; exhaustive enumeration of terminal sizes and of a command-line family; every key compared with REF-EDIT / REF-CMD and a twin Machine driven by library calls; panic monitor on every transition and render",
+    "No key sequence / size makes handle_event or Interface::render panic; cursor and history index stay in range; editing keys behave as REF-EDIT; a submitted line is rejected with a notification or has exactly the effect of the documented command on the machine (PartialEq against the twin), values above 255 and trailing garbage rejected; control keys act as the library calls of the same name.",
+    "Trusted: REF-EDIT / REF-CMD; completion results are adopted (only invariants checked); float spellings other than plain decimals are unspecified; crossterm I/O, raw mode and the real-time pacing of Tui::run are outside the check.",
+    "DESIGN.md 3/C17")
+
 NOT_YET = {}
 
 def main():
